@@ -8,7 +8,9 @@ package main
 import (
 	"flag"
 	"fmt"
+	"io"
 	"reflect"
+	"syscall"
 
 	"go.1password.io/spg"
 )
@@ -29,6 +31,7 @@ type FaultEv struct {
 	Res     GenRes `json:"res"`
 	Same    int    `json:"same"` // result identical to the fault-free run
 	Starved int    `json:"starved"`
+	ErrKind string `json:"errKind"` // plain | EINTR | EAGAIN | wrapped-EINTR | EOF
 }
 
 func genBody(sc Scenario) (func() GenRes, error) {
@@ -91,20 +94,29 @@ func cmdFaults(args []string) {
 		words := o.Tape.Words
 		R := o.Tape.Reads
 		em.Emit(FaultEv{Op: "fault", ID: i, Kind: sc.Kind, Mode: "base", Reads: R, Words: len(words), Res: base, Same: 1})
+		errKinds := []struct {
+			name string
+			err  error
+		}{{"plain", nil}, {"EINTR", syscall.EINTR}, {"EAGAIN", syscall.EAGAIN}, {"wrapped-EINTR", fmt.Errorf("read /dev/urandom: %w", syscall.EINTR)},
+			{"EOF", io.ErrUnexpectedEOF}}
+		nerr := 0
 		replay := func(mode string, k, j int, chunk []int) {
 			t := &Tape{}
 			for _, w := range words {
 				t.Push(w)
 			}
+			ek := errKinds[0]
 			if mode == "error" {
-				t.FailAt, t.FailGot = k, j
+				ek = errKinds[nerr%len(errKinds)]
+				nerr++
+				t.FailAt, t.FailGot, t.FailErr = k, j, ek.err
 			} else {
 				// short successful deliveries: reads before k are whole; from k on, chunked as planned
 				t.Chunk = chunk
 				t.chunkFrom = k
 			}
 			res := runOnTape(t, body)
-			ev := FaultEv{Op: "fault", ID: i, Kind: sc.Kind, Mode: mode, K: k, J: j, Reads: t.Reads, Words: len(words), Res: res}
+			ev := FaultEv{Op: "fault", ID: i, Kind: sc.Kind, Mode: mode, K: k, J: j, Reads: t.Reads, Words: len(words), Res: res, ErrKind: ek.name}
 			if reflect.DeepEqual(res, base) {
 				ev.Same = 1
 			}
